@@ -317,7 +317,7 @@ def run(tier, seed):
     cmd = "ulimit -v 6000000; exec %s -seed %d -n %d -compiler-every %d -corpus %s" % (
         binp, seed, n, 8, os.path.join(ROOT, "corpus", "C15", "fixed.json"))
     rc, outp = sh(["bash", "-c", cmd], timeout=3000)
-    cases, sigs = [], None
+    cases, sigs, nxt = [], None, None
     for ln in outp.split("\n"):
         if ln.startswith("{"):
             try: j = json.loads(ln)
@@ -326,11 +326,12 @@ def run(tier, seed):
             elif "fatal" in j:
                 ck.violation("harness-crash", {"kind": "crash"}, {"fatal": j["fatal"]}, no_input=True)
                 return ck.finish()
+            elif "next" in j: nxt = j
             elif "fn" in j: cases.append(j)
     if rc != 0 or not cases:
-        last = cases[-1] if cases else None
-        ck.violation("harness-crash", {"kind": "crash", "fn": last["fn"] if last else None},
-                     {"rc": rc, "tail": outp[-3000:], "last_case": last and dict(fn=last["fn"], args=last["args"], res=last["res"])}, no_input=False)
+        # the call announced last did not return: the process died in it (fatal runtime error such as out of memory under the cap, or a hang)
+        ck.violation("harness-crash", {"kind": "crash", "fn": nxt["next"] if nxt else None},
+                     {"rc": rc, "tail": outp[-3000:], "call": nxt}, no_input=nxt is None)
         return ck.finish()
     # signatures of the real module vs the roles assumed
     for fn, exp in SIG.items():
